@@ -93,6 +93,30 @@ def canon(x: Any) -> Term:
     return Term(f"#obj:{type(x).__name__}:{x!r}")
 
 
+class TupleTerm(tuple):
+    """A user value that IS a tuple (a pair of bounds, a shape, ...) and stands for one term: the single result of a function
+    declared `rettuple`.  Whoever decides "one value per output name" from the type of the value instead of from the
+    function's output names splats it, and the first component is not the term."""
+
+    def __repr__(self) -> str:
+        return repr(self._pfverif_term)
+
+    def __eq__(self, o: object) -> bool:
+        return canon(self) == canon(o)
+
+    def __ne__(self, o: object) -> bool:
+        return not self.__eq__(o)
+
+    def __hash__(self) -> int:
+        return hash(self._pfverif_term)
+
+
+def tuple_term(t: Term) -> TupleTerm:
+    x = TupleTerm((Term("#fst-of-a-tuple-valued-result"), Term("#snd-of-a-tuple-valued-result")))
+    x._pfverif_term = t
+    return x
+
+
 def to_json(x: Any) -> dict:
     t = canon(x)
     return {"f": t.f, "a": [to_json(y) for y in t.a]}
